@@ -39,7 +39,12 @@ SPEC2 = {
         'int_arrays': ['patch_to_wall_ids', 'scattering_index'],
         'nat_scalars': ['n_bins'], 'float_scalars': [], 'ret_rank': 3},
 }
-ORDER2 = ['get_scattering_data_source', '_form_factors_with_directivity_dim', '_add_directional']
+SPEC2['get_scattering_data_receiver_index'] = {
+    'lean': 'getScatteringDataReceiverIndex',
+    'arrays': {'pos_i': 2, 'pos_j': 1, 'receivers': 3, 'wall_id_i': 1},
+    'int_arrays': ['wall_id_i'], 'nat_scalars': [], 'float_scalars': [], 'ret_rank': 1, 'ret_int': True}
+ORDER2 = ['get_scattering_data_source', '_form_factors_with_directivity_dim', '_add_directional',
+          'get_scattering_data_receiver_index']
 
 
 class K2(K):
@@ -121,6 +126,8 @@ class K2(K):
         if isinstance(e, ast.BinOp) and isinstance(e.op, ast.Pow) and isinstance(e.right, ast.Constant) and e.right.value == 2:
             a, ka = self.scalar(e.left, env)
             return '(%s * %s)' % (a, a), ka
+        if isinstance(e, ast.Attribute) and e.attr == 'ndim' and dotted(e.value) in self.arr:
+            return str(self.arr[dotted(e.value)].rank), 'nat'
         if isinstance(e, ast.BinOp) and isinstance(e.op, ast.Sub):
             a, ka = self.scalar(e.left, env)
             b, kb = self.scalar(e.right, env)
@@ -150,7 +157,7 @@ class K2(K):
                 n = self.shape_of(v)[0]
                 at = self.rhs_at(v, env, [(0, 'q_', n)])
                 return 'Transc.sqrt ((List.range (%s)).foldl (fun acc_ q_ => acc_ + (%s) * (%s)) 0)' % (n, at, at), 'float'
-            if f == 'np.argmin' and len(e.args) == 1:
+            if f == 'np.argmin' and len(e.args) == 1 and all(k.arg == 'axis' for k in e.keywords):
                 s = e.args[0]
                 ok = isinstance(s, ast.Call) and dotted(s.func) == 'np.sum' and len(s.args) == 1 and \
                     any(k.arg == 'axis' and isinstance(k.value, ast.UnaryOp) for k in s.keywords)
@@ -219,6 +226,12 @@ class K2(K):
             return sp + 'fun %s => %s' % (ps, self.rhs_at(st.value, env, coords))
         if isinstance(st, ast.Assign) and len(st.targets) == 1 and isinstance(st.targets[0], ast.Name):
             name, v = st.targets[0].id, st.value
+            # integer result array: np.empty((n), dtype=np.int64)
+            if isinstance(v, ast.Call) and dotted(v.func) == 'np.empty' and len(v.args) == 1 and \
+                    any(k.arg == 'dtype' and dotted(k.value) == 'np.int64' for k in v.keywords):
+                n_, kd = self.scalar(v.args[0], env)
+                self.arr[name] = Arr(name, 1, [n_], True)
+                return sp + 'let %s : Nat → Nat := fun _ => 0\n' % name + cont()
             # helper call returning an array
             if isinstance(v, ast.Call) and dotted(v.func) in SPEC2:
                 callee = K2(dotted(v.func))
@@ -315,7 +328,7 @@ class K2(K):
         body = self.block(self.fn.body, {}, 1, '')
         doc = '/-- translated from `%s` (%s) -/' % (self.py, FAST)
         head = ('def %s [Add α] [Sub α] [Mul α] [Div α] [Neg α] [Zero α] [Cmp α] [ToBin α] [Transc α]\n    %s :\n    %s :=\n'
-                % (self.spec['lean'], ' '.join(sig), self.fn_type(self.spec['ret_rank'])))
+                % (self.spec['lean'], ' '.join(sig), self.fn_type(self.spec['ret_rank'], self.spec.get('ret_int', False))))
         return doc + '\n' + head + body + '\n'
 
 
